@@ -142,6 +142,11 @@ impl World {
         if let Some(n) = self.coord.workers.get_mut(&wid(w)) { n.status = WorkerStatus::Draining; }
         self.emit(ctx, &format!("drainmark {}", w), "ok");
     }
+    fn setstatus(&mut self, ctx: &mut Ctx, w: u64, st: WorkerStatus) {
+        let name = st.to_string();
+        if let Some(n) = self.coord.workers.get_mut(&wid(w)) { n.status = st; }
+        self.emit(ctx, &format!("setstatus {} {}", w, name), "ok");
+    }
     fn plan(&mut self, ctx: &mut Ctx, specs: &[Spec]) -> Option<DeployGroupPlan> {
         let spec = PipelineGroupSpec {
             name: "g".into(),
@@ -271,6 +276,15 @@ impl World {
         };
         self.emit(ctx, &format!("drain {}", w), &a);
     }
+    fn rebalance(&mut self, ctx: &mut Ctx, rt: &tokio::runtime::Runtime, outcomes: &[bool]) {
+        self.note_migs();
+        { let mut s = self.script.lock().unwrap(); s.clear(); s.extend(outcomes.iter().copied()); }
+        let _ = rt.block_on(self.coord.rebalance());
+        self.script.lock().unwrap().clear();
+        let migs = self.note_migs();
+        if !migs.is_empty() { ctx.count("rebalance.moved_something"); }
+        self.emit(ctx, "rebalance", &format!("m:{}", if migs.is_empty() { "-".to_string() } else { migs.join(",") }));
+    }
     /// (group index, placement name, worker) of all placements
     fn placements(&mut self) -> Vec<(u64, String, u64)> {
         let gkeys: Vec<String> = self.coord.pipeline_groups.keys().cloned().collect();
@@ -317,6 +331,23 @@ fn gen_specs(ctx: &mut Ctx, names: &[&str], max_worker: u64) -> Vec<Spec> {
 
 /// C33: heartbeats, sweeps around the timeout boundary, status changes and placement requests
 fn run_c33(ctx: &mut Ctx, rt: &tokio::runtime::Runtime, base: &str, script: &Script) {
+    // exhaustive small scope: two workers, every status x {free, full}, every affinity (none, w1, w2, unknown w3),
+    // one or two replicas: 4*2 * 4*2 * 4 * 2 = 512 placement requests
+    let statuses = [WorkerStatus::Registering, WorkerStatus::Ready, WorkerStatus::Unhealthy, WorkerStatus::Draining];
+    for (i1, s1) in statuses.iter().enumerate() { for full1 in [false, true] { for (i2, s2) in statuses.iter().enumerate() { for full2 in [false, true] {
+        let mut w = new_world(ctx, base, script, 15000, false);
+        w.register(ctx, 1, 1, 2, 0);
+        w.register(ctx, 2, 1, 2, 0);
+        for (id, st, full, idx) in [(1u64, s1, full1, i1), (2u64, s2, full2, i2)] {
+            if full { w.heartbeat(ctx, id, 1); }
+            if idx != 1 { w.setstatus(ctx, id, st.clone()); }
+        }
+        for aff in [None, Some(1u64), Some(2), Some(3)] { for replicas in [1usize, 2] {
+            let specs = vec![Spec { name: "p".into(), aff, replicas }];
+            w.plan(ctx, &specs);
+            ctx.count("c33.exhaustive_plan");
+        } }
+    } } } }
     let scenarios = if ctx.thorough { 2500 } else { 250 };
     for _ in 0..scenarios {
         let timeout = *ctx.rng.pick(&[1000u64, 15000, 50]);
@@ -376,8 +407,9 @@ fn run_c33(ctx: &mut Ctx, rt: &tokio::runtime::Runtime, base: &str, script: &Scr
                     let ps = w.placements();
                     if !ps.is_empty() { let (g, n, _) = ctx.rng.pick(&ps).clone(); let ok = !ctx.rng.chance(1, 4); w.migrate(ctx, rt, g, &n, anyw, ok); }
                 }
-                _ => { // drain
-                    if ctx.rng.chance(1, 2) { let o: Vec<bool> = (0..4).map(|_| !ctx.rng.chance(1, 5)).collect(); w.drain(ctx, rt, anyw, &o); }
+                _ => { // drain or rebalance
+                    let o: Vec<bool> = (0..4).map(|_| !ctx.rng.chance(1, 5)).collect();
+                    if ctx.rng.chance(1, 2) { w.drain(ctx, rt, anyw, &o); } else { w.rebalance(ctx, rt, &o); }
                 }
             }
         }
@@ -400,7 +432,7 @@ fn run_c32(ctx: &mut Ctx, rt: &tokio::runtime::Runtime, base: &str, script: &Scr
         let steps = 14 + ctx.rng.below(22);
         for _ in 0..steps {
             let anyw = 1 + ctx.rng.below(nw);
-            let r = ctx.rng.below(24);
+            let r = ctx.rng.below(26);
             // commit something pending?
             if !pending.is_empty() && (guarded || ctx.rng.chance(2, 5)) {
                 let i = ctx.rng.below(pending.len() as u64) as usize;
@@ -452,9 +484,9 @@ fn run_c32(ctx: &mut Ctx, rt: &tokio::runtime::Runtime, base: &str, script: &Scr
                     let ps = w.placements();
                     if !ps.is_empty() { let (g, n, _) = ctx.rng.pick(&ps).clone(); let ok = !ctx.rng.chance(1, 4); w.migrate(ctx, rt, g, &n, anyw, ok); }
                 }
-                _ => { // failover of an arbitrary worker
+                _ => { // failover of an arbitrary worker, or a rebalance
                     let o: Vec<bool> = (0..4).map(|_| !ctx.rng.chance(1, 5)).collect();
-                    w.failover(ctx, rt, anyw, &o);
+                    if ctx.rng.chance(1, 2) { w.failover(ctx, rt, anyw, &o); } else { w.rebalance(ctx, rt, &o); }
                 }
             }
         }
